@@ -123,7 +123,7 @@ def check_assembly(st, scn):
 
 
 def units(tier):
-    us = [("generic", name) for name, _ in gen.enzymes()]
+    us = [("generic", name) for name, _ in gen.enzymes()] + [("degenerate", name) for name, _ in gen.degenerate_enzymes()]
     rows = regs.table()
     for i in range(0, len(rows), 12):
         us.append(("registry", (i, min(len(rows), i + 12))))
@@ -144,6 +144,18 @@ def signature_free_class(cls):
 
 def run_unit(unit, st, tier):
     kind, arg = unit
+    if kind == "degenerate":
+        M, V = gen.generic_classes(arg)
+        gen.prime([M, V])
+        g = gen.geometry_of(gen.enzyme(arg))
+        for k, near, w, s in gen.degenerate_records(arg):
+            if rm.count_sites(s, g) != 2:
+                st.filtered += 1
+                continue
+            cls = M if k == "module" else V
+            check_typing(st, "typing", cls, s, range(len(s)), dict(family="typing", enz=arg, kind=k, seq=s))
+        st.sample(dict(family="typing", enz=arg, kind="module", rotation=1, way="string", note="degenerate site"))
+        return
     if kind == "generic":
         enz = arg
         M, V = gen.generic_classes(enz)
